@@ -211,6 +211,12 @@ Lemma p_date_filter_sgd : sgd (p_date_filter o).
 Proof. unfold p_date_filter. gds. Qed.
 Hint Resolve p_date_filter_sgd : gdb.
 
+Lemma not_step_gd u : gd F continues (not_step u).
+Proof. unfold not_step. gds. Qed.
+Lemma not_loop_wgd : wgd (loop F not_step tt).
+Proof. apply wgd_loop. intro. apply not_step_gd. Qed.
+Hint Resolve not_loop_wgd : gdb.
+
 Lemma p_search_key_sgd d : forall pr, sgd (p_search_key o F d pr).
 Proof.
   induction d as [|d IH]; intro pr; cbn [p_search_key]; [apply gd_raise|].
